@@ -1,6 +1,7 @@
 import ActixNet.Lemmas.Avail
 import ActixNet.Lemmas.SrvRR
 import ActixNet.Lemmas.SrvProgress
+import ActixNet.Lemmas.SrvCursor
 /-!
 # C04 — dispatch is round-robin over available workers only; availability bits are independent
 
@@ -191,6 +192,77 @@ example : let S := run cfg3 (init cfg3 [.tcp]) skipOps
     S.next = 0 ∧ S.avail 0 = false ∧ S.avail 1 = false ∧ S.avail 2 = true ∧
     firstAvail cfg3.nIdx S.avail cfg3.nIdx S.next = some 2 ∧
     (acceptOne cfg3 4 S (9, 0)).dispatched.getLast? = some ((9, 0), 2) ∧ (acceptOne cfg3 4 S (9, 0)).next = 0 := by
+  decide
+
+/-! ### The cursor moves only by a dispatch or a detected worker fault -/
+
+/-- **The rotation cursor moves only when a connection is dispatched or a dead worker is detected.**
+One iteration of the accept loop (`poll_with`: any event batch `order`, any schedule `sched` of other
+threads' actions at the yield points, ANY start state — no invariant assumed) that neither appended to
+the dispatch log nor reported a `WorkerFaulted` leaves `Accept::next` exactly where it was.  For the
+code: a `WorkerAvailable` notification, a new `Worker` handle, `Pause` / `Resume` / `Stop`, a listener
+time-out (`process_timeout`), an `accept()` error or `WouldBlock`, and an empty iteration never move the
+cursor, so the worker whose turn it is is not skipped.  (`accept_one` does step over workers marked
+unavailable, but it never returns before the connection is placed or a dead handle is removed —
+`acceptOne_moved`.)  The hypothesis `s'.fault = none` (the iteration did not end in one of the model's
+sticky Rust panics / endless loops) cannot be dropped in the bare model — see the last example below —
+and holds in every reachable state (`reachable_cursor_moves_only_by_dispatch`). -/
+theorem cursor_moves_only_by_dispatch (cfg : Cfg) (s : St) (order : List Ev) (sched : List (List EnvAct)) :
+    let s' := poll cfg s order sched
+    s'.fault = none → s'.dispatched.length = s.dispatched.length → s'.faultedLog.length = s.faultedLog.length →
+    s'.next = s.next := by
+  intro s' hnf hd hf
+  exact (poll_curR cfg s order sched).2.2.2 hd hf hnf
+
+/-- the same over any list of operations of the stepped system (iterations, actions of other threads
+between them, the W2 window) -/
+theorem cursor_moves_only_by_dispatch_run (cfg : Cfg) (s : St) (ops : List Op) :
+    let s' := run cfg s ops
+    s'.fault = none → s'.dispatched.length = s.dispatched.length → s'.faultedLog.length = s.faultedLog.length →
+    s'.next = s.next := by
+  intro s' hnf hd hf
+  exact (run_curR cfg ops s).2.2.2 hd hf hnf
+
+/-- **in every reachable state, unconditionally**: between any two points of any history from the initial
+state of a valid configuration (worker deaths included) the cursor is unchanged unless a connection was
+dispatched or a `WorkerFaulted` was reported in between (both logs are append-only: `run_logs_mono`) -/
+theorem reachable_cursor_moves_only_by_dispatch (cfg : Cfg) (ok : CfgOk cfg) (kinds : List Kind) (ops more : List Op) :
+    let S := run cfg (init cfg kinds) ops
+    let S' := run cfg S more
+    S'.dispatched.length = S.dispatched.length → S'.faultedLog.length = S.faultedLog.length → S'.next = S.next := by
+  intro S S' hd hf
+  have hnf : S'.fault = none := by
+    show (run cfg (run cfg (init cfg kinds) ops) more).fault = none
+    rw [← run_cat]; exact run_fault_none ok kinds (ops ++ more)
+  exact (run_curR cfg more S).2.2.2 hd hf hnf
+
+-- non-vacuity: worker 0 saturated and released, its `WorkerAvailable(0)` waits in the waker queue, the cursor
+-- stands at 1.  The iteration processes the notification, a `Pause` and a `Resume` arriving at its yield points
+-- (6 yield points, `accept` entered twice on an empty backlog): worker 0 is available again, nothing dispatched,
+-- the cursor still at 1
+def wakeOps : List Op :=
+  [.env (.connect 0), .env (.connect 0), .env (.connect 0), .env (.connect 0), .poll [.listener 0, .waker] [],
+   .env (.recv 0), .env (.recv 0), .env (.finishNow 0 none)]
+example : let S := run cfg3 (init cfg3 [.tcp]) wakeOps
+    let S' := poll cfg3 S [.waker] [[.advance 7, .cmd .pause], [.cmd .resume]]
+    S.wq = [.workerAvail 0] ∧ S.next = 1 ∧ S.avail 0 = false ∧ S'.avail 0 = true ∧ S'.yields = 6 ∧ S'.wq = [] ∧
+    S'.fault = none ∧ S'.dispatched.length = S.dispatched.length ∧ S'.faultedLog.length = S.faultedLog.length ∧
+    S'.next = 1 := by
+  decide
+-- contrast: a connection arriving at the first yield point of the same iteration is dispatched and the cursor moves
+example : let S := run cfg3 (init cfg3 [.tcp]) wakeOps
+    let S' := poll cfg3 S [.waker] [[.connect 0]]
+    S'.fault = none ∧ S'.dispatched.length = S.dispatched.length + 1 ∧ S'.next = 2 := by
+  decide
+-- the hypothesis `s'.fault = none` is needed in the bare model: from this (unreachable) state with worker
+-- indices ≥ 512 `accept_one` panics in `Availability::offset` while stepping over worker 0; the fault is sticky and the
+-- rest of the model step still runs — cursor moved, nothing logged
+def badSt : St :=
+  { init cfg3 [.tcp] with wk := fun w => { idx := w + 600, c := 1 }, avail := fun i => decide (i = 1),
+                          lst := fun _ => { backlog := [(0, 0)], edge := true } }
+example : let S' := poll cfg3 badSt [.listener 0] []
+    S'.fault = some .panicOffset ∧ S'.dispatched = badSt.dispatched ∧ S'.faultedLog = badSt.faultedLog ∧
+    badSt.next = 0 ∧ S'.next = 1 := by
   decide
 
 end ActixNet.C04
